@@ -90,7 +90,7 @@ PROP = dict(
               'Fit.C14.C14_listener_never_deadlocked', 'Fit.C14.C14_listener_no_carry_over', 'Fit.C14.C14_listener_run_is_path',
               'Fit.C14.C14_listener_unbuffered_handover', 'Fit.C14.C14_listener_buffer0_completes',
               'Fit.C14.C14_listener_builds_file', 'Fit.C14.C14_listener_no_data_race', 'Fit.C14.C14_listener_access_frame',
-              'Fit.C14.C14_listener_terminates', 'Fit.C14.C14_listener_file_sets'],
+              'Fit.C14.C14_listener_terminates', 'Fit.C14.C14_listener_file_sets', 'Fit.C14.C14_listener_legacy_is_instance'],
     extra=_extra,
     families=[dict(name='filedef', prop=True, spec=True), dict(name='listener', spec=True)],
     trusted_base=STD_TRUST + [
